@@ -86,6 +86,9 @@ type C13Second struct {
 	// Reuse: the Option value that configures this client's set has already been applied once, in another Dial of
 	// the same process, behind the first client's set (options are values: applying one must not change it)
 	Reuse bool `json:"reuse,omitempty"`
+	// SameAddr: this client dials the very address string the first client dialled (its dialer leads to its own
+	// server all the same: what answers behind an address may change between two dials)
+	SameAddr bool `json:"same_addr,omitempty"`
 }
 
 func genC13(g *simrt.Tape, tier string) any {
@@ -99,7 +102,7 @@ func genC13(g *simrt.Tape, tier string) any {
 		sc.Client = 31
 	}
 	if g.Draw(4) == 0 {
-		sc.Second = &C13Second{Client: 1 + g.Draw(31), Server: 1 + g.Draw(31), Default: g.Draw(2) == 0, Reuse: g.Draw(2) == 0}
+		sc.Second = &C13Second{Client: 1 + g.Draw(31), Server: 1 + g.Draw(31), Default: g.Draw(2) == 0, Reuse: g.Draw(2) == 0, SameAddr: g.Draw(2) == 0}
 		if sc.Second.Default {
 			sc.Second.Client = 31
 		}
@@ -175,6 +178,8 @@ func c13Grid(tier string) []*C13Sc {
 				Second: &C13Second{Client: 31, Default: true, Server: s2}})
 			out = append(out, &C13Sc{Client: 31, Default: true, Server: srv, Beh: behForeign, Enforce: -1, FollowUp: true,
 				Second: &C13Second{Client: 1 + (srv*7)%31, Server: s2, Reuse: srv%2 == 0}})
+			out = append(out, &C13Sc{Client: 1 + (srv*5)%31, Server: srv, Beh: behConformant, Enforce: -1, FollowUp: true,
+				Second: &C13Second{Client: 1 + (srv*11)%31, Server: s2, SameAddr: true}})
 		}
 	}
 	return out
@@ -591,16 +596,20 @@ func (c *c13Second) run(x *X, sc *C13Sc) {
 		return echoResponse(req)
 	}
 	o := []kmipclient.Option{kmipclient.WithDialerUnsafe(w2.dialer)}
+	addr2 := "sim2"
+	if sc.Second.SameAddr {
+		addr2 = "sim"
+	}
 	if !sc.Second.Default {
 		own := kmipclient.WithKmipVersions(permute(cset, sc.Order+3)...)
 		if sc.Second.Reuse {
-			if d, err := kmipclient.DialContext(context.Background(), "sim2", kmipclient.WithDialerUnsafe(w2.dialer), kmipclient.WithKmipVersions(setOf(sc.Client)...), own); err == nil && d != nil {
+			if d, err := kmipclient.DialContext(context.Background(), addr2, kmipclient.WithDialerUnsafe(w2.dialer), kmipclient.WithKmipVersions(setOf(sc.Client)...), own); err == nil && d != nil {
 				_ = d.Close()
 			}
 		}
 		o = append(o, own)
 	}
-	c2, err := kmipclient.DialContext(context.Background(), "sim2", o...)
+	c2, err := kmipclient.DialContext(context.Background(), addr2, o...)
 	c.dialErr = err
 	if err != nil || c2 == nil {
 		return
